@@ -35,8 +35,9 @@ def parseSeg (tok : String) : Option Seg :=
         let e? : Option Expect := if e == 'n' then some .no else if e == 'e' then some .cont else if e == 'u' then some .unknown else none
         match m?, c?, e? with
         | some m, some c, some e =>
-          if (p == '0' || p == '1') && (s == 'y' || s == 'o') then
-            some (.req { method := m, proto11 := p == '1', conn := c, expect := e, sent := s == 'y', body := body })
+          if (p == '0' || p == '1') && (s == 'y' || s == 'o' || s == 'w') then
+            some (.req { method := m, proto11 := p == '1', conn := c, expect := e, sent := s == 'y', body := body,
+                         waits := s == 'w' })
           else none
         | _, _, _ => none
       | _, _ => none
@@ -98,6 +99,7 @@ def run (op impl : String) : Ans :=
       let tags :=
         ["handled" ++ toString (min nh 4)] ++
         (if segs.any (fun s => match s with | .req r => r.expect == .cont | _ => false) then ["expect"] else []) ++
+        (if segs.any (fun s => match s with | .req r => r.waits | _ => false) then ["waiting"] else []) ++
         (if segs.any (fun s => match s with | .req r => (match r.body with | .chunked _ _ => true | _ => false) | _ => false) then ["chunkedreq"] else []) ++
         (if segs.any (fun s => match s with | .req r => (match r.body with | .bad _ => true | _ => false) | _ => false) then ["badchunk"] else []) ++
         (if segs.any (fun s => match s with | .req _ => false | _ => true) then ["malformed"] else []) ++
